@@ -18,6 +18,9 @@ import PydjinniModel.Props.C17
 * `front_recorded_error_reported`, `front_syntax_error_exit`   once the lexer / parser (or the visitor) has recorded an error, **no**
                                   failure class of the visitor on the recovered tree changes the verdict: the front end ends with
                                   the list of recorded errors, and the command line with the code of the first one, no traceback
+* `malformed_config_exit`, `config_directory_or_missing_exit`   a configuration file that the decoder of its format refuses (syntax
+                                  error, bytes that are no text, a document that is no mapping) ends the command line with 141, no
+                                  traceback — for every format and whatever options, IDL and targets; a directory likewise, a missing file with 2
 * `front_crash_only_unrecorded`   the front end's verdict is an undocumented exception only if reading the file, or the visitor on a
                                   tree without any recorded error, or a phase after it failed with a class the outer clauses do not know
 -/
@@ -140,7 +143,7 @@ theorem never_traceback_partial (inv : Invocation) (w : World) (hdom : cliDom in
     (exitOf (cliStages inv w)).traceback = false := by
   apply exitOf_no_traceback
   simp only [cliDom, Bool.and_eq_true] at hdom
-  obtain ⟨⟨⟨hcfg, hfront⟩, hdump⟩, hcmd⟩ := hdom
+  obtain ⟨⟨⟨⟨hcfg, hfront⟩, hdump⟩, hcmd⟩, hrep⟩ := hdom
   have hconf := ofOutcome_documented _ (configureOutcome_not_crash inv w hcfg)
   have hready := ofOutcome_documented _ (readyOutcome_not_crash inv w hcfg)
   have hopts : (match optionsStage inv with | .ok _ => StageResult.ok | .error _ => StageResult.raised (.app 141)).documented = true := by
@@ -176,7 +179,10 @@ theorem never_traceback_partial (inv : Invocation) (w : World) (hdom : cliDom in
       · rfl
     · simp only; split <;> rfl
     · exact generateStage_documented _ w clean t (hcmd t ht).1 (hcmd t ht).2
-    · rfl
+    · unfold reportStage
+      split
+      · rename_i r hr; rw [hr] at hrep; simpa [StageResult.documented] using hrep
+      · rfl
 
 /-- the hole is real: `--config None -o generate.java.out=o -o generate.java.package=a.b.c -o generate.jni.out=o
 -o generate.jni.namespace=a::b generate x.djinni java` on an IDL with a record ends in a traceback (status 1) -/
@@ -370,6 +376,45 @@ theorem front_crash_only_unrecorded (f : FrontRun) (h : (frontOf f).documented =
           cases hk : (Step.failed cls).known with
           | false => rfl
           | true => simp [hrec, outerHandler_documented [] cls hk] at h
+
+/-! ### malformed configuration files, in every format -/
+
+/-- what the decoder of the file's format refuses: a syntax error, bytes that are no text of the format, a document that is no mapping -/
+def Content.refused : Content → Bool
+  | .syntaxError => true
+  | .undecodable => true
+  | .nonMapping => true
+  | _ => false
+
+/-- a configuration file that its decoder refuses — **whatever the format** (YAML, YML, JSON, TOML, unknown suffix), whatever the
+`-o` options (well-formed or not), the environment, the IDL, the targets — ends `pydjinni … generate …` with the configuration code
+141 and without a traceback -/
+theorem malformed_config_exit (inv : Invocation) (w : World) (sfx : Suffix) (c : Content) (argsOk clean : Bool) (targets : List String)
+    (htop : inv.topOk = true) (hcmd : inv.command = .generate argsOk clean targets)
+    (hcfg : inv.config = .present sfx c) (hc : c.refused = true) :
+    exitOf (cliStages inv w) = ⟨141, false⟩ := by
+  unfold cliStages
+  simp only [hcmd, htop, if_true]
+  cases ho : optionsStage inv with
+  | error e => simp [exitOf, handler]
+  | ok opts =>
+    have hconf : configureOutcome inv w = .app 141 := by
+      simp only [configureOutcome, ho, hcfg]
+      cases c <;> cases sfx <;> simp_all [configure, Content.refused]
+    simp [exitOf, hconf, ofOutcome, handler]
+
+/-- … and so does a directory given as configuration file; a file that does not exist ends with 2 -/
+theorem config_directory_or_missing_exit (inv : Invocation) (w : World) (argsOk clean : Bool) (targets : List String) (opts : Kids)
+    (htop : inv.topOk = true) (hcmd : inv.command = .generate argsOk clean targets) (hopts : optionsStage inv = .ok opts) :
+    (inv.config = .directory → exitOf (cliStages inv w) = ⟨141, false⟩)
+    ∧ (inv.config = .missing → exitOf (cliStages inv w) = ⟨2, false⟩) := by
+  constructor <;> intro hcfg <;> unfold cliStages <;>
+    simp [hcmd, htop, hopts, exitOf, configureOutcome, hcfg, configure, ofOutcome, handler]
+
+example : exitOf (cliStages { topOk := true, options := ["generate.cpp.out=o"], config := .present .toml .syntaxError, command := .generate true false ["cpp"] }
+    { validate := fun _ => true, env := [], dotenv := [], front := .ok, kinds := [], genFail := fun _ => none, reportConfigured := false })
+    = ⟨141, false⟩ := by
+  apply malformed_config_exit _ _ .toml .syntaxError true false ["cpp"] rfl rfl rfl rfl
 
 /-- the hypotheses are satisfiable, and the verdict does not depend on the visitor's failure class: `property : i32;`
 (a syntax error, then a pydantic `ValidationError` in the visitor) and `@import "x` swallowing 300 characters (`OSError`) -/
